@@ -14,6 +14,7 @@ import CocaVerif.Drv.Arch
 import CocaVerif.Drv.Deps
 import CocaVerif.Drv.Cloc
 import CocaVerif.Drv.Api
+import CocaVerif.Drv.JavaFull
 open Lean
 
 partial def loop {σ : Type} (h : IO.FS.Stream) (out : IO.FS.Stream) (step : σ → Json → σ × Json) (st : σ) : IO Unit := do
@@ -45,4 +46,5 @@ def main (args : List String) : IO UInt32 := do
   | ["deps"] => loop stdin stdout CocaVerif.Drv.Deps.step (); return 0
   | ["cloc"] => loop stdin stdout CocaVerif.Drv.Cloc.step (); return 0
   | ["api"] => loop stdin stdout CocaVerif.Drv.Api.step {}; return 0
+  | ["javafull"] => loop stdin stdout CocaVerif.Drv.JavaFull.step {}; return 0
   | _ => IO.eprintln "usage: driver <family>"; return 2
